@@ -158,7 +158,7 @@ def _same(a, b, tol=TOL):
         return False, False, 'shape %s vs %s' % (ad.shape, bd.shape)
     if ad.size == 0:
         return True, True, 0.0
-    sc = np.max(np.abs(bd)) + 1e-300
+    sc = float(np.max(np.abs(bd))) + 1e-300
     err = float(np.max(np.abs(ad - bd)) / sc)
     return err <= tol, bool(np.array_equal(ad, bd)), err
 
@@ -415,6 +415,23 @@ def _late(ctx, p, rng):
         ctx.ok('late-independent', ('late', prog.name, p['rec'], kind, D, P), exact=exact)
 
 
+_INVG = []
+
+
+def _INV_GRAPH():
+    """a finished graph of inv(X), recorded once per process"""
+    if not _INVG:
+        saved = Function.cgraph
+        g = CGraph()
+        X = Function(np.array([[2.0, 1.0], [0.5, 3.0]]))
+        Y = algopy.inv(X)
+        g.trace_off()
+        g.independentFunctionList = [X]; g.dependentFunctionList = [Y]
+        Function.cgraph = saved          # building the helper graph must not disturb a recording in progress
+        _INVG.append(g)
+    return _INVG[0]
+
+
 def _onoff(ctx, rng):
     x0 = rng.normal(size=3)
     kind = ['ndarray', 'utpm11', 'utpmDP'][int(rng.integers(3))]
@@ -453,6 +470,15 @@ def _onoff(ctx, rng):
     s1 = algopy.sin(u) * u
     g1 = cg.function([rng.normal(size=3)])[0]                     # uses the finished graph, e.g. to obtain a constant
     cg.pushforward([UTPM(rng.normal(size=(2, 1, 3)))]); cg.pullback([UTPM(rng.normal(size=(2, 1, 3)))])
+    # ... and an evaluation of a finished graph that fails (a singular matrix for inv, an argument that cannot be converted) and is
+    # caught by the caller: recording of the third graph goes on
+    failed = 0
+    for bad_call in (lambda: _INV_GRAPH().function([np.zeros((2, 2))]), lambda: cg.function([object()]),
+                     lambda: cg.pullback([UTPM(rng.normal(size=(2, 1, 4)))])):
+        try:
+            bad_call()
+        except Exception:
+            failed += 1
     n_before = len(cg3.functionList)
     s2 = s1 * 2.0 + algopy.exp(0.1 * u)                            # must still be recorded into cg3
     cg3.trace_off()
